@@ -235,6 +235,7 @@ type world struct {
 	roots                         map[string]string // C02 injectivity: root -> content digest
 	mark                          int
 	iterN                         int
+	retryMerge                    bool
 	savedFailRead, savedFailWrite map[int]bool
 }
 
